@@ -196,6 +196,10 @@ func (p *phaser) Phase(orfs, seqs SeqBag) (phased chan PhasedSequence, err error
 
 	// All threads consuming sequences
 	var wg sync.WaitGroup
+	// Set by the first worker that meets an error: the others stop. (The workers
+	// must not assign err: Phase has already returned it, and they would race.)
+	var mux sync.Mutex
+	failed := false
 	for cpu := 0; cpu < p.cpus; cpu++ {
 		wg.Add(1)
 		go func() {
@@ -210,17 +214,20 @@ func (p *phaser) Phase(orfs, seqs SeqBag) (phased chan PhasedSequence, err error
 					ph, inerr = p.alignAgainstRefsNT(seq, orfs.Sequences())
 				}
 
-				if ph.Err != nil {
-					err = inerr
-					phased <- ph
-					return
-				} else if inerr != nil {
-					err = inerr
-					ph.Err = inerr
+				if ph.Err != nil || inerr != nil {
+					if ph.Err == nil {
+						ph.Err = inerr
+					}
+					mux.Lock()
+					failed = true
+					mux.Unlock()
 					phased <- ph
 					return
 				}
-				if err != nil {
+				mux.Lock()
+				stop := failed
+				mux.Unlock()
+				if stop {
 					return
 				}
 				phased <- ph
